@@ -1,6 +1,7 @@
 (* C09 — every trace of Model/Stack.v is accepted by the monitor Spec/C09Spec.v. *)
 From Verif Require Import Base.Prelude Model.Stack Spec.StackObs Spec.BindReg Spec.C09Spec
   Proofs.StackLemmas Proofs.StackInv Proofs.BindRegProofs.
+From Verif Require Import Model.StackX Spec.StackXSpec Proofs.StackXProofs.
 
 (* ---------- the invariant ---------- *)
 Record Inv (s : st) (m : mst) : Prop := {
@@ -190,3 +191,6 @@ Proof.
   right. exists pe, sf. auto.
 Qed.
 
+(* ---------- teardown overlapped by another peer's registry call (Model/StackX.v) ---------- *)
+Theorem xrun_accepted ops : xaccepted (xjudge mon minit (snd (xrun init ops))) = true.
+Proof. apply (xrun_accepted_from mon Inv step_inv). exact inv_init. Qed.
